@@ -481,7 +481,15 @@ fn do_op(w: &mut World, op: &Value, e: &mut Map<String, Value>) -> Result<(), St
             e.insert("nsl_before".into(), json!(sp.len()));
             e.insert("stable_before".into(), json!(stable));
             if ev == "pop" && sp.is_empty() {
-                e.insert("skip".into(), json!(1)); // documented to panic; not driven
+                // documented to panic ("no stable prefix"); it must not remove anything either
+                if o.is_empty() {
+                    e.insert("skip".into(), json!(1));
+                    return Ok(());
+                }
+                e.insert("ev".into(), json!("bad_pop"));
+                e.insert("req".into(), json!(runlist(&[])));
+                e.insert("ret".into(), json!(0));
+                o.consumer().pop_front();
                 return Ok(());
             }
             let mut req = Vec::with_capacity(region);
@@ -555,7 +563,7 @@ pub fn drive_pipe(ops: &str, trace: &str) {
                     }
                     e.insert("panic".into(), json!(p));
                     e.insert("err".into(), json!(""));
-                    dead = gets(op, "ev") != "bad_backfill";
+                    dead = gets(op, "ev") != "bad_backfill" && e.get("ev").and_then(|v| v.as_str()) != Some("bad_pop");
                 }
             }
             w.observe(&mut e);
